@@ -1,6 +1,6 @@
 (** C01 — functions with conflicting data access never run at the same time. *)
 From FG Require Import Dag Builder Sched DagFacts EdgeFacts RankFacts BuilderFacts TopoFacts AugFacts BuildFacts
-     SchedInv SafetyFacts CfgFacts StreamInv SI_Queuer SI_Step SI_Stream SafetyInv StreamFacts.
+     SchedInv SafetyFacts CfgFacts StreamInv SI_Queuer SI_Step SI_Stream SafetyInv StreamFacts SelfSignal SelfSignalInv.
 
 (** For every builder call sequence, every two distinct functions whose declarations conflict,
     every concurrent call configuration and every event list: in every prefix [T0] of the trace in
@@ -46,6 +46,30 @@ Proof.
   - exact Hpath.
 Qed.
 Print Assumptions C01_stream.
+
+
+(** Exclusivity also holds when a user future sends the interrupt signal itself, inside a poll of the call
+    ([SelfSignal.run_sig]; known finding F4 concerns the C08 bound only). *)
+Theorem C01_call_when_a_user_future_sends_the_signal : forall ops G p q rev a mt ctl lim st incl imm er sg evs i j,
+  build (builder_run ops) = BOk G p q ->
+  i < ncount (builder_run ops) -> j < ncount (builder_run ops) -> i <> j -> conflicting (builder_run ops) i j ->
+  forall T0 T', trace (fst (run_sig sg (mk_cfg G rev a mt ctl lim st incl imm er) evs)) = T0 ++ T' ->
+  In i (starts T0) -> In j (starts T0) -> In i (ends T0) \/ In j (ends T0).
+Proof.
+  intros ops G p q rev a mt ctl lim st incl imm er sg evs i j Hb Hi Hj Hne Hc.
+  pose proof (build_ok_intro ops G p q Hb) as Hok.
+  set (cf := mk_cfg G rev a mt ctl lim st incl imm er).
+  pose proof (inv_run_sig sg cf evs (cfg_ok_mk _ _ _ _ rev a mt ctl lim st incl imm er Hok)) as Hinv.
+  apply (path_no_overlap (c_es cf)); [apply (v_trace _ _ Hinv) | exact Hne |].
+  assert (Hpath : Path (fg_edges G) i j \/ Path (fg_edges G) j i).
+  { destruct (lexlt_total (fg_ranks G) i j Hne) as [Hlt|Hlt].
+    - left. apply (bo_conn _ _ _ _ Hok); assumption.
+    - right. apply (bo_conn _ _ _ _ Hok); try assumption. unfold conflicting in *. rewrite conflict_sym. exact Hc. }
+  unfold cf. rewrite (mk_cfg_es _ _ _ _ rev a mt ctl lim st incl imm er Hok). destruct rev.
+  - destruct Hpath as [H|H]; [right | left]; apply (proj2 (Path_flip _ _ _)); exact H.
+  - exact Hpath.
+Qed.
+Print Assumptions C01_call_when_a_user_future_sends_the_signal.
 
 (** Non-vacuity: two root writers of the same type; the second starts only after the first ended. *)
 Example C01_example :
